@@ -850,6 +850,14 @@ fn sec_nest(ctx: &mut Ctx, cal: &Calib, out_dir: &str) {
         let mut monotone = true;
         for d in depths {
             let body = nest_sig(ver, d);
+            if d > 12 {
+                // stack exhaustion would take this process down with it: try the deep ones in a child first
+                let r = run_probe(&format!("nest {ver} {d} 2048 pp"), out_dir);
+                ctx.oracle("no_crash", site, &format!("nest ver={ver} d={d} stack_kib=2048 |input|={}", body.len() + 6), r.crashed.is_none(), &format!("PacketParser over one signature packet: {}", r.crashed.clone().unwrap_or_default()));
+                if r.crashed.is_some() {
+                    continue;
+                }
+            }
             // on a thread of the default size (2 MiB): a parser that recursed with the nesting would die here
             let b2 = body.clone();
             let limit = cal.time_bound(body.len());
@@ -1343,6 +1351,41 @@ fn sec_stream(ctx: &mut Ctx, cal: &Calib, out_dir: &str) {
         };
         ctx.case(format!("checkfirst_cap bs=16 max={max} n={n}"), ans);
         ctx.oracle("checkfirst_capped", "crypto/sym/decryptor.rs CheckFirst", &format!("max={max} n={n}"), s.peak <= 3 * max + 8192 * 2 + 4096, &fmt_stats(&s));
+    }
+    // ... for every cipher SEIPDv1 can be read with: the configured cap and the streaming window are
+    // the caller's, whichever arm of the per-cipher dispatch is taken
+    use SymmetricKeyAlgorithm as S;
+    for alg in [S::IDEA, S::TripleDES, S::CAST5, S::Blowfish, S::AES128, S::AES192, S::AES256, S::Twofish, S::Camellia128, S::Camellia192, S::Camellia256] {
+        let bs = alg.block_size();
+        let akey = vec![0x5au8; alg.key_size()];
+        for max in [100usize, 1000, 16384] {
+            for n in [max.saturating_sub(23), max.saturating_sub(22), max.saturating_sub(21), max.saturating_sub(24 + bs), max, 4 * max] {
+                let pt = pattern(5, n);
+                let Ok(pkt) = pgp::packet::SymEncryptedProtectedData::encrypt_seipdv1(&mut rng, alg, &akey, &pt) else {
+                    ctx.stat(&format!("checkfirst_cap:cannot_encrypt:{alg:?}"));
+                    continue;
+                };
+                let ct = pkt.data().to_vec();
+                let (r, s) = measure(|| guarded(|| StreamDecryptor::v1(alg, Seipdv1ReadMode::CheckFirst { max_message_size: max }, &akey, &ct[..]).map(|d| drain(d))));
+                let ans = match r {
+                    Ok(Ok(Ok(k))) => format!("ok:{k}"),
+                    Ok(_) => "err".into(),
+                    Err(_) => "panic".into(),
+                };
+                ctx.case(format!("checkfirst_cap bs={bs} max={max} n={n}"), ans);
+                ctx.oracle("checkfirst_capped", "crypto/sym/decryptor.rs CheckFirst (every cipher)", &format!("alg={alg:?} max={max} n={n}"), s.peak <= 3 * max + 8192 * 2 + 4096, &fmt_stats(&s));
+            }
+        }
+        // streaming: a 1 MiB message never has more than the window in memory
+        let n = 1usize << 20;
+        let pt = pattern(6, n);
+        let Ok(pkt) = pgp::packet::SymEncryptedProtectedData::encrypt_seipdv1(&mut rng, alg, &akey, &pt) else { continue };
+        let ct = pkt.data().to_vec();
+        drop(pt);
+        let (r, s) = measure(|| guarded(|| StreamDecryptor::v1(alg, Seipdv1ReadMode::Streaming, &akey, &ct[..]).map(|d| drain(d))));
+        let good = matches!(r, Ok(Ok(Ok(k))) if k == n);
+        ctx.oracle("stream_bounded", "crypto/sym/decryptor.rs Streaming (every cipher)", &format!("alg={alg:?} n={n}"), good && s.peak <= 65536, &format!("read_ok={good} {}", fmt_stats(&s)));
+        ctx.stat("v1_cipher_sweep");
     }
 }
 
